@@ -75,6 +75,9 @@ type Pair struct {
 	busy       atomic.Int64
 	stormMu    sync.Mutex
 	storm      map[string]int
+	// optional monitors around the server-side application handler
+	HandlerEnter func(r *pool.Message) any
+	HandlerExit  func(r *pool.Message, state any)
 }
 
 // StormLimit is the number of relayed datagrams after which a pair stops delivering.
@@ -253,6 +256,10 @@ func NewUDPPair(poolSize int, rule Rule) *Pair {
 			}})
 	}
 	srv := mk(ss, "srv", 10000, func(w *responsewriter.ResponseWriter[*udpclient.Conn], r *pool.Message) {
+		if p.HandlerEnter != nil {
+			st := p.HandlerEnter(r)
+			defer func() { p.HandlerExit(r, st) }()
+		}
 		body, _ := r.ReadBody()
 		p.serverLogic(r.Code(), r.Token(), r.Options(), body, func(code codes.Code, b []byte, opts ...message.Option) {
 			var rd io.ReadSeeker
@@ -358,6 +365,10 @@ func NewTCPPair(poolSize int) (*Pair, error) {
 			Extra: []tcp.Option{options.WithBlockwise(true, blockwise.SZX64, 3*time.Second)}})
 	}
 	srv, err := mk(ssc, "srv", func(w *responsewriter.ResponseWriter[*tcpclient.Conn], r *pool.Message) {
+		if p.HandlerEnter != nil {
+			st := p.HandlerEnter(r)
+			defer func() { p.HandlerExit(r, st) }()
+		}
 		body, _ := r.ReadBody()
 		p.serverLogic(r.Code(), r.Token(), r.Options(), body, func(code codes.Code, b []byte, opts ...message.Option) {
 			var rd io.ReadSeeker
@@ -484,7 +495,7 @@ type Hooks struct {
 // Run executes one exchange on the client connection and returns when the call(s) returned.
 func (p *Pair) Run(x Exchange, rnd *rand.Rand, hk *Hooks) Result {
 	var res Result
-	timeout := 5 * time.Second
+	timeout := 150 * time.Millisecond
 	if x.Outcome == "silent" || x.Outcome == "rst" || x.Outcome == "badblock" || x.Outcome == "werr" {
 		timeout = time.Duration(20+rnd.Intn(40)) * time.Millisecond
 	}
